@@ -535,6 +535,9 @@ func (m *bsMachine) pickCons(label string, pred func(*bsCons) bool) *bsCons {
 
 func (m *bsMachine) rulePut(t *rapid.T) {
 	k := rapid.IntRange(0, 4).Draw(t, "k")
+	if rapid.IntRange(0, 39).Draw(t, "largeBatch") == 0 {
+		k = rapid.SampledFrom([]int{16, 63, 64, 65, 100, 300}).Draw(t, "largeK") // batch sizes are not limited by the library
+	}
 	ctxKind := rapid.SampledFrom([]string{"nil", "bg", "bg", "cancelled"}).Draw(t, "putCtx")
 	var ctx context.Context
 	switch ctxKind {
@@ -558,6 +561,9 @@ func (m *bsMachine) rulePut(t *rapid.T) {
 		}
 	}
 	err := m.b.Put(ctx, args...)
+	for i := range args {
+		args[i] = -7 // the argument slice belongs to the caller again once Put has returned
+	}
 	wantErr := ctxKind == "cancelled" || m.closed
 	if wantErr != (err != nil) {
 		if err != nil {
@@ -571,7 +577,11 @@ func (m *bsMachine) rulePut(t *rapid.T) {
 			m.bigBatch = true
 		}
 		m.changed()
-		m.tr("put(%v)", vals)
+		if len(vals) > 6 {
+			m.tr("put(%d..%d)", vals[0], vals[len(vals)-1])
+		} else {
+			m.tr("put(%v)", vals)
+		}
 	} else {
 		m.next -= k
 		m.tr("put(%s)=err", ctxKind)
